@@ -101,6 +101,29 @@ Q_functions_Srcs == OnlyM1
 Q_functions_Conds == NoCond
 Q_functions_Schemas == {5, 18}
 
+\* two and three wildcard / regex call fields in ONE statement, functions from different classes of
+\* the per-function type filter in both orders, mixed with `*` whole fields, over schemas that have
+\* all five field types: every call field must get its own filter, whatever stood before it
+FnClass(fn) == IF fn \in FnStrBool THEN 1 ELSE IF fn \in FnBool THEN 2 ELSE IF fn \in FnNoUns THEN 3 ELSE 4
+Multi(ks, fs) == <<ks, "multi", fs, "">>
+\* ordered pairs / triples of functions of pairwise different classes
+FnPairs(Fs) == {p \in Fs \X Fs : FnClass(p[1]) # FnClass(p[2])}
+FnTriples(Fs) == {p \in Fs \X Fs \X Fs : Cardinality({FnClass(p[1]), FnClass(p[2]), FnClass(p[3])}) = 3}
+\* a pair of call fields alone, and with a `*` whole field before, between and after them
+Lay2(k, p) == {Multi(<<k[1], k[2]>>, <<p[1], p[2]>>), Multi(<<"*", k[1], k[2]>>, <<"", p[1], p[2]>>),
+               Multi(<<k[1], "*", k[2]>>, <<p[1], "", p[2]>>), Multi(<<k[1], k[2], "*">>, <<p[1], p[2], "">>)}
+MultiCores(Fs2, Ks2, Fs3, Ks3) ==
+  UNION {Lay2(k, p) : k \in Ks2, p \in FnPairs(Fs2)} \cup {Multi(k, p) : k \in Ks3, p \in FnTriples(Fs3)}
+FnReps == {"count", "max", "holt_winters", "mean"}
+
+Q_multicall_Cores == MultiCores(FnReps, {<<"*", "*">>, <<".*", "a|b">>}, FnReps, {<<"*", "*", "*">>, <<"a|b", "*", ".*">>})
+Q_multicall_GroupBys == {<<>>}
+Q_multicall_Befores == None
+Q_multicall_Afters == None
+Q_multicall_Srcs == OnlyM1
+Q_multicall_Conds == NoCond
+Q_multicall_Schemas == {5, 13, 18}
+
 \* ------------------------------------------------------------------ thorough
 T_positions_Cores == {F(k) : k \in AllKinds}
                      \cup {A(k, fn) : k \in {"*", "*::field", "^a", "a|b", ".*", "zz"}, fn \in AllFns}
@@ -163,4 +186,15 @@ T_functions_Afters == None
 T_functions_Srcs == {<<"m1">>, <<"s_star">>}
 T_functions_Conds == NoCond
 T_functions_Schemas == {5, 13, 18}
+
+T_multicall_Cores == MultiCores({"count", "sample", "distinct", "min", "max", "holt_winters", "holt_winters_with_fit", "mean", "sum", "top"},
+                                {<<"*", "*">>, <<".*", "a|b">>, <<"*::field", ".*">>},
+                                {"count", "last", "max", "holt_winters", "mean", "percentile"},
+                                {<<"*", "*", "*">>, <<"a|b", "*", ".*">>})
+T_multicall_GroupBys == {<<>>, <<"*">>}
+T_multicall_Befores == None
+T_multicall_Afters == None
+T_multicall_Srcs == OnlyM1
+T_multicall_Conds == NoCond
+T_multicall_Schemas == {5, 13, 18}
 =============================================================================
